@@ -7,6 +7,15 @@ dirs = sys.argv[2:] or sorted(glob.glob(os.path.join(V, 'seeded', 'C*-*')))
 def sh(cmd, **k):
     return subprocess.run(cmd, shell=True, capture_output=True, text=True, **k)
 assert sh('git -C /repo diff --quiet').returncode == 0, '/repo dirty'
+import shutil, tempfile, atexit
+_bak = tempfile.mkdtemp(prefix='scmo_evidence_bak_')
+shutil.copytree(os.path.join(V, 'evidence'), os.path.join(_bak, 'evidence'))
+def _restore():
+    # evidence written while a seeded change was applied must never stay in /verif/evidence
+    shutil.rmtree(os.path.join(V, 'evidence'), ignore_errors=True)
+    shutil.copytree(os.path.join(_bak, 'evidence'), os.path.join(V, 'evidence'))
+    shutil.rmtree(_bak, ignore_errors=True)
+atexit.register(_restore)
 for d in dirs:
     d = os.path.abspath(d)
     name = os.path.basename(d)
